@@ -9,7 +9,7 @@ variable {St : Type}
 theorem sim_fuel_r (L iter : List String) (mr : MR St) : Sim L iter mr .fuel := by
   cases mr <;> simp [Sim]
 
-theorem bodyrel_fuel_r (labels iter : List String) (br : BR St) : BodyRel labels iter br .fuel := by
+theorem bodyrel_fuel_r (labels iter : List String) (V : Option Val) (br : BR St) : BodyRel labels iter V br .fuel := by
   cases br <;> simp [BodyRel]
 
 theorem sim_ok {L iter : List String} {o : OV} {c : Comp} {L' : List String} (σ : St)
@@ -36,7 +36,9 @@ theorem labok_sub {L L1 : List String} (h : LabOK L L1) : ∀ t ∈ L1, t ∈ L 
 
 theorem kindrel_weaken {L1 L iter : List String} {o : OV} {c : Comp}
     (hs : ∀ t ∈ L1, t ∈ L) (h : KindRel L1 iter o c) : KindRel L iter o c := by
-  cases o <;> simp only [KindRel] at h ⊢
+  refine ⟨?_, h.2⟩
+  have h := h.1
+  cases o <;> simp only [KindRelT] at h ⊢
   · rcases h with h | ⟨t, h1, h2⟩
     · exact Or.inl h
     · exact Or.inr ⟨t, h1, hs t h2⟩
@@ -67,16 +69,17 @@ theorem labok_pop {L L' : List String} {l : String} (h : LabOK (L ++ [l]) L') : 
 section
 variable (S : Sem St)
 
-def PS (n : Nat) : Prop := ∀ m s L ls iter σ, (∀ t ∈ ls, t ∈ L) → (∀ t ∈ L, t ∉ iter) → wlS iter ls s = true →
+def PS (n : Nat) : Prop := ∀ m s L ls iter σ, (∀ t ∈ ls, t ∈ L) → (∀ t ∈ L, t ∈ ls) → (∀ t ∈ L, t ∉ iter) → wlS iter ls s = true →
     Sim L iter (ottoS S n s L σ) (specS S m ls s σ)
 
 def PVars (n : Nat) : Prop := ∀ m es L iter σ, Sim L iter (ottoVars S n es L σ) (specVars S m es σ)
 
 def PList (n : Nat) : Prop := ∀ m ss iter σ result, isResult result = false → wlList iter ss = true →
-    Sim [] iter (ottoList S n ss [] σ result) (specList S m ss σ)
+    Sim [] iter (ottoList S n ss [] σ result) (listWrap (ovVal result) (specList S m ss σ))
 
-def PBodyList (n : Nat) : Prop := ∀ m ss labels iter σ result, wlList iter ss = true →
-    BodyRel labels iter (ottoBody S n ss labels [] σ result) (specList S m ss σ)
+def PBodyList (n : Nat) : Prop := ∀ m ss labels iter σ result pass V, wlList iter ss = true →
+    isResult result = false → isResult pass = false → ovVal result = pick (ovVal pass) V →
+    BodyRel labels iter V (ottoBody S n ss labels [] σ result pass) (listWrap (ovVal pass) (specList S m ss σ))
 
 theorem pvars_all : ∀ n, PVars S n := by
   intro n
@@ -88,60 +91,108 @@ theorem pvars_all : ∀ n, PVars S n := by
     | zero => simp only [specVars]; exact sim_fuel_r _ _ _
     | succ m =>
       cases es with
-      | nil => simp [ottoVars, specVars, Sim, KindRel, labok_refl]
+      | nil => simp [ottoVars, specVars, Sim, KindRel, KindRelT, ovVal, labok_refl]
       | cons e es =>
         simp only [ottoVars, specVars]
         cases S.evalE e σ with
         | ok v σ' => exact ih m es L iter σ'
         | throw v σ' => simp [Sim, labok_refl]
 
+/-! ### values -/
 
-theorem kindrel_pick {L iter : List String} {o : OV} {c2 : Comp} (x : Option Val)
-    (h : KindRel L iter o c2) : KindRel L iter o ⟨c2.t, pick c2.v x⟩ := by
-  cases o <;> simp only [KindRel] at h ⊢ <;> try exact h
-  obtain ⟨h1, h2⟩ := h
-  exact ⟨h1, by simp [pick, h2]⟩
+theorem pick_none (x : Option Val) : pick none x = x := rfl
+theorem pick_assoc (a b c : Option Val) : pick (pick a b) c = pick a (pick b c) := by
+  cases a <;> rfl
+theorem pick_none_r (a : Option Val) : pick a none = a := by cases a <;> rfl
 
-theorem sim_list_wrap {iter : List String} {mr : MR St} {sr : SR St} (x : Option Val)
-    (h : Sim [] iter mr sr) :
-    Sim [] iter mr (listWrap x sr) := by
-  cases mr <;> cases sr <;> simp only [Sim, listWrap] at h ⊢
-  · exact ⟨h.1, h.2.1, kindrel_pick x h.2.2⟩
-  · exact h
+theorem ovVal_nextResult {o r : OV} (h : isResult o = false) : ovVal (nextResult o r) = pick (ovVal o) (ovVal r) := by
+  cases o <;> simp [isResult] at h <;> simp [nextResult, ovVal, pick]
+
+theorem ovVal_carrying {o r : OV} (ho : isResult o = true) (hr : isResult r = false) :
+    ovVal (carrying o r) = pick (ovVal o) (ovVal r) := by
+  cases o with
+  | empty => simp [isResult] at ho
+  | val v => simp [isResult] at ho
+  | ret v => cases r <;> simp_all [isResult, carrying, ovVal, pick]
+  | brk t c => cases c <;> cases r <;> simp_all [isResult, carrying, ovVal, pick]
+  | cont t c => cases c <;> cases r <;> simp_all [isResult, carrying, ovVal, pick]
+
+theorem ovVal_carried {o r : OV} (ho : isResult o = true) (hn : ∀ v, o ≠ .ret v) :
+    ovVal (carried o r) = pick (ovVal o) (ovVal r) := by
+  cases o with
+  | empty => simp [isResult] at ho
+  | val v => simp [isResult] at ho
+  | ret v => exact absurd rfl (hn v)
+  | brk t c => cases c <;> simp [carried, ovVal, pick]
+  | cont t c => cases c <;> simp [carried, ovVal, pick]
+
+theorem carried_nonresult {o r : OV} (hr : isResult r = false) : isResult (carried o r) = false := by
+  cases o with
+  | brk t c => cases c <;> simp_all [carried, isResult]
+  | cont t c => cases c <;> simp_all [carried, isResult]
+  | _ => simpa [carried] using hr
+
+theorem carrying_kind {L iter : List String} {o r : OV} {c : Comp} (h : KindRelT L iter o c) :
+    KindRelT L iter (carrying o r) c := by
+  cases o with
+  | brk t x => cases x <;> cases r <;> simpa [carrying, KindRelT] using h
+  | cont t x => cases x <;> cases r <;> simpa [carrying, KindRelT] using h
+  | _ => cases r <;> simpa [carrying] using h
+
+theorem carrying_isResult (o r : OV) : isResult (carrying o r) = isResult o := by
+  cases o with
+  | brk t x => cases x <;> cases r <;> simp [carrying, isResult]
+  | cont t x => cases x <;> cases r <;> simp [carrying, isResult]
+  | _ => cases r <;> simp [carrying, isResult]
+
+theorem listWrap_listWrap (a b : Option Val) (sr : SR St) :
+    listWrap b (listWrap a sr) = listWrap (pick a b) sr := by
+  cases sr <;> simp [listWrap, pick_assoc]
 
 theorem kindrel_nil_normal {iter : List String} {o : OV} {c : Comp} (hr : isResult o = false)
     (h : KindRel [] iter o c) : c.t = .normal := by
-  cases o <;> simp [isResult] at hr <;> simp [KindRel] at h <;> exact h
+  have h := h.1
+  cases o <;> simp [isResult] at hr <;> simp [KindRelT] at h <;> exact h
 
 theorem kindrel_result_abrupt {L iter : List String} {o : OV} {c : Comp} (hr : isResult o = true)
     (h : KindRel L iter o c) : c.abrupt = true := by
-  cases o <;> simp [isResult] at hr <;> simp [KindRel] at h <;> simp [Comp.abrupt, h]
+  have h := h.1
+  cases o <;> simp [isResult] at hr <;> simp [KindRelT] at h <;> simp [Comp.abrupt, h]
 
 theorem nextResult_notResult {o result : OV} (h1 : isResult o = false) (h2 : isResult result = false) :
     isResult (nextResult o result) = false := by
   cases o <;> simp_all [nextResult, isResult]
 
+/-- the model's result related to the completion `c`, seen through an older value -/
+theorem kindrel_wrap {L iter : List String} {o' : OV} {c : Comp} (x : Option Val)
+    (hk : KindRelT L iter o' c) (hv : ovVal o' = pick c.v x) : KindRel L iter o' ⟨c.t, pick c.v x⟩ := by
+  refine ⟨?_, hv⟩
+  cases o' <;> simpa [KindRelT] using hk
+
 theorem plist_step (n : Nat) (hS : PS S n) (hL : PList S n) : PList S (n+1) := by
   intro m ss iter σ result hres hwl
   cases m with
-  | zero => simp only [specList]; exact sim_fuel_r _ _ _
+  | zero => simp only [specList, listWrap]; exact sim_fuel_r _ _ _
   | succ m =>
     cases ss with
-    | nil => simp [ottoList, specList, Sim, labok_refl]; cases result <;> simp_all [isResult, KindRel]
+    | nil =>
+      simp only [ottoList, specList, listWrap, pick]
+      refine sim_ok _ (labok_refl _) ⟨?_, rfl⟩
+      cases result <;> simp_all [isResult, KindRelT]
     | cons s ss =>
       simp only [wlList, Bool.and_eq_true] at hwl
-      have ih := hS m s [] [] iter σ (by simp) (by simp) hwl.1
+      have ih := hS m s [] [] iter σ (by simp) (by simp) (by simp) hwl.1
       simp only [ottoList, specList]
       cases hm : ottoS S n s [] σ with
       | fuel => simp [Sim]
       | throw v L' σ' =>
         cases hs : specS S m [] s σ with
-        | fuel => exact sim_fuel_r _ _ _
+        | fuel => simp only [listWrap]; exact sim_fuel_r _ _ _
         | ok c σ2 => rw [hm, hs] at ih; simp [Sim] at ih
-        | throw v2 σ2 => rw [hm, hs] at ih; exact ih
+        | throw v2 σ2 => rw [hm, hs] at ih; simpa [listWrap] using ih
       | ok o L' σ' =>
         cases hs : specS S m [] s σ with
-        | fuel => exact sim_fuel_r _ _ _
+        | fuel => simp only [listWrap]; exact sim_fuel_r _ _ _
         | throw v2 σ2 => rw [hm, hs] at ih; simp [Sim] at ih
         | ok c σ2 =>
           rw [hm, hs] at ih
@@ -153,65 +204,98 @@ theorem plist_step (n : Nat) (hS : PS S n) (hL : PList S n) : PList S (n+1) := b
           cases hr : isResult o with
           | true =>
             have hab := kindrel_result_abrupt hr hk
-            simp only [hr, hab, if_true]
-            exact sim_ok _ (labok_refl _) hk
+            simp only [hr, hab, if_true, listWrap]
+            refine sim_ok _ (labok_refl _) (kindrel_wrap _ (carrying_kind hk.1) ?_)
+            rw [ovVal_carrying hr hres, hk.2]
           | false =>
             have hn := kindrel_nil_normal hr hk
             have hab : c.abrupt = false := by simp [Comp.abrupt, hn]
             simp only [hr, hab, Bool.false_eq_true, if_false]
-            exact sim_list_wrap c.v (hL m ss iter σ' (nextResult o result) (nextResult_notResult hr hres) hwl.2)
+            rw [listWrap_listWrap]
+            have := hL m ss iter σ' (nextResult o result) (nextResult_notResult hr hres) hwl.2
+            rw [ovVal_nextResult hr, hk.2] at this
+            exact this
 
+theorem listWrap_none (sr : SR St) : listWrap none sr = sr := by
+  cases sr <;> simp [listWrap, pick_none_r]
 
-theorem bodyrel_list_wrap {labels iter : List String} {br : BR St} {sr : SR St} (x : Option Val)
-    (h : BodyRel labels iter br sr) : BodyRel labels iter br (listWrap x sr) := by
-  cases br <;> cases sr <;> simp only [BodyRel, listWrap] at h ⊢ <;> try exact h
-  obtain ⟨h1, h2, h3, h4⟩ := h
-  exact ⟨h1, h2, kindrel_pick x h3, h4⟩
+theorem carrying_brk (t : String) (x : Option Val) (r : OV) : ∃ y, carrying (.brk t x) r = .brk t y := by
+  cases x <;> cases r <;> simp [carrying]
+theorem carrying_cont (t : String) (x : Option Val) (r : OV) : ∃ y, carrying (.cont t x) r = .cont t y := by
+  cases x <;> cases r <;> simp [carrying]
 
-theorem bodyResult_rel {labels iter : List String} {o result : OV} {c : Comp} (σ : St)
-    (hr : isResult o = true) (hk : KindRel [] iter o c) :
-    BodyRel labels iter (bodyResult labels o result [] σ) (.ok c σ) := by
+theorem bodyResult_rel {labels iter : List String} {o result pass : OV} {c : Comp} {V : Option Val} (σ : St)
+    (hr : isResult o = true) (hk : KindRel [] iter o c) (hres : isResult result = false) (hpass : isResult pass = false)
+    (hinv : ovVal result = pick (ovVal pass) V) :
+    BodyRel labels iter V (bodyResult labels o result pass [] σ) (.ok ⟨c.t, pick c.v (ovVal pass)⟩ σ) := by
   cases o with
   | empty => simp [isResult] at hr
   | val v => simp [isResult] at hr
-  | ret v => simp [bodyResult, evalBC, BodyRel, hk, isResult]
-  | brk t =>
-    simp only [KindRel] at hk
+  | ret v =>
+    have h1 := hk.1; have h2 := hk.2
+    simp only [KindRelT] at h1
+    simp only [ovVal] at h2
+    simp only [bodyResult, evalBC, carrying, BodyRel, isResult, true_and]
+    refine ⟨⟨by simpa [KindRelT] using h1, by simp [ovVal, ← h2, pick]⟩, ?_, ?_⟩ <;> intro t x h <;> cases h
+  | brk t x =>
+    have h1 := hk.1; have h2 := hk.2
+    simp only [KindRelT] at h1
     by_cases ht : t ∈ labels
-    · simp [bodyResult, evalBC, ht, BodyRel, hk]
-    · simp [bodyResult, evalBC, ht, BodyRel, hk, isResult, KindRel]
-  | cont t =>
-    simp only [KindRel] at hk
+    · simp only [bodyResult, evalBC, List.contains_iff_mem, ht, if_true, BodyRel, true_and]
+      refine ⟨⟨t, h1, ht⟩, ?_⟩
+      rw [ovVal_carried hr (by intro v h; cases h), h2, hinv, pick_assoc]
+    · simp only [bodyResult, evalBC, List.contains_iff_mem, ht, if_false, BodyRel, true_and]
+      refine ⟨kindrel_wrap _ (carrying_kind hk.1) (by rw [ovVal_carrying hr hpass, h2]), by rw [carrying_isResult]; exact hr, ?_, ?_⟩
+      · intro t' x' h
+        obtain ⟨y, hy⟩ := carrying_brk t x pass
+        rw [hy] at h; cases h; exact ht
+      · intro t' x' h
+        obtain ⟨y, hy⟩ := carrying_brk t x pass
+        rw [hy] at h; cases h
+  | cont t x =>
+    have h1 := hk.1; have h2 := hk.2
+    simp only [KindRelT] at h1
     by_cases ht : t ∈ labels
-    · simp [bodyResult, evalBC, ht, BodyRel, hk]
-    · simp [bodyResult, evalBC, ht, BodyRel, hk, isResult, KindRel]
+    · simp only [bodyResult, evalBC, List.contains_iff_mem, ht, if_true, BodyRel, true_and]
+      refine ⟨⟨t, h1.1, ht, h1.2⟩, ?_⟩
+      rw [ovVal_carried hr (by intro v h; cases h), h2, hinv, pick_assoc]
+    · simp only [bodyResult, evalBC, List.contains_iff_mem, ht, if_false, BodyRel, true_and]
+      refine ⟨kindrel_wrap _ (carrying_kind hk.1) (by rw [ovVal_carrying hr hpass, h2]), by rw [carrying_isResult]; exact hr, ?_, ?_⟩
+      · intro t' x' h
+        obtain ⟨y, hy⟩ := carrying_cont t x pass
+        rw [hy] at h; cases h
+      · intro t' x' h
+        obtain ⟨y, hy⟩ := carrying_cont t x pass
+        rw [hy] at h; cases h; exact ht
 
 theorem pbodylist_step (n : Nat) (hS : PS S n) (hB : PBodyList S n) : PBodyList S (n+1) := by
-  intro m ss labels iter σ result hwl
+  intro m ss labels iter σ result pass V hwl hres hpass hinv
   cases m with
-  | zero => simp only [specList]; exact bodyrel_fuel_r _ _ _
+  | zero => simp only [specList, listWrap]; exact bodyrel_fuel_r _ _ _ _
   | succ m =>
     cases ss with
-    | nil => simp [ottoBody, specList, BodyRel]
+    | nil =>
+      simp only [ottoBody, specList, listWrap, BodyRel, pick, true_and]
+      exact hinv
     | cons s ss =>
       simp only [wlList, Bool.and_eq_true] at hwl
-      have ih := hS m s [] [] iter σ (by simp) (by simp) hwl.1
+      have ih := hS m s [] [] iter σ (by simp) (by simp) (by simp) hwl.1
       simp only [ottoBody, specList]
       cases hm : ottoS S n s [] σ with
       | fuel => simp [BodyRel]
       | throw v L' σ' =>
         cases hs : specS S m [] s σ with
-        | fuel => exact bodyrel_fuel_r _ _ _
+        | fuel => simp only [listWrap]; exact bodyrel_fuel_r _ _ _ _
         | ok c σ2 => rw [hm, hs] at ih; simp [Sim] at ih
         | throw v2 σ2 =>
           rw [hm, hs] at ih
           simp only [Sim] at ih
           obtain ⟨h1, h2, h3⟩ := ih
           subst h1; subst h2
-          simp [BodyRel, labok_of_nil h3]
+          simp [BodyRel, listWrap, labok_of_nil h3]
       | ok o L' σ' =>
         cases hs : specS S m [] s σ with
-        | fuel => exact bodyrel_fuel_r _ _ _
+        | fuel => simp only [listWrap]; exact bodyrel_fuel_r _ _ _ _
         | throw v2 σ2 => rw [hm, hs] at ih; simp [Sim] at ih
         | ok c σ2 =>
           rw [hm, hs] at ih
@@ -223,37 +307,42 @@ theorem pbodylist_step (n : Nat) (hS : PS S n) (hB : PBodyList S n) : PBodyList 
           cases hr : isResult o with
           | true =>
             have hab := kindrel_result_abrupt hr hk
-            simp only [hr, hab, if_true]
-            exact bodyResult_rel _ hr hk
+            simp only [hr, hab, if_true, listWrap]
+            exact bodyResult_rel _ hr hk hres hpass hinv
           | false =>
             have hn := kindrel_nil_normal hr hk
             have hab : c.abrupt = false := by simp [Comp.abrupt, hn]
             simp only [hr, hab, Bool.false_eq_true, if_false]
-            exact bodyrel_list_wrap c.v (hB m ss labels iter σ' (nextResult o result) hwl.2)
+            rw [listWrap_listWrap]
+            have := hB m ss labels iter σ' (nextResult o result) (nextResult o pass) V hwl.2
+              (nextResult_notResult hr hres) (nextResult_notResult hr hpass)
+              (by rw [ovVal_nextResult hr, ovVal_nextResult hr, hinv, pick_assoc])
+            rw [ovVal_nextResult hr, hk.2] at this
+            exact this
 
-
-def PBody (n : Nat) : Prop := ∀ m b labels iter σ result, wlS iter [] b = true →
-    BodyRel labels iter (ottoBody S n (bodyList b) labels [] σ result) (specS S m [] b σ)
+def PBody (n : Nat) : Prop := ∀ m b labels iter σ result, wlS iter [] b = true → isResult result = false →
+    BodyRel labels iter (ovVal result) (ottoBody S n (bodyList b) labels [] σ result .empty) (specS S m [] b σ)
 
 theorem pbody_step (n : Nat) (hS : PS S n) (hB : PBodyList S (n+1)) : PBody S (n+1) := by
-  intro m b labels iter σ result hwl
+  intro m b labels iter σ result hwl hres
   by_cases hb : ∃ ss, b = .block ss
   · obtain ⟨ss, rfl⟩ := hb
     cases m with
-    | zero => simp only [specS]; exact bodyrel_fuel_r _ _ _
+    | zero => simp only [specS]; exact bodyrel_fuel_r _ _ _ _
     | succ m =>
       simp only [bodyList, specS]
-      exact hB m ss labels iter σ result (by simpa [wlS] using hwl)
+      have := hB m ss labels iter σ result .empty (ovVal result) (by simpa [wlS] using hwl) hres rfl (by simp [ovVal, pick])
+      simpa [ovVal, listWrap_none] using this
   · have hbl : bodyList b = .cons b .nil := by
       cases b <;> simp_all [bodyList]
     rw [hbl]
-    have ih := hS m b [] [] iter σ (by simp) (by simp) hwl
+    have ih := hS m b [] [] iter σ (by simp) (by simp) (by simp) hwl
     simp only [ottoBody]
     cases hm : ottoS S n b [] σ with
     | fuel => simp [BodyRel]
     | throw v L' σ' =>
       cases hs : specS S m [] b σ with
-      | fuel => exact bodyrel_fuel_r _ _ _
+      | fuel => exact bodyrel_fuel_r _ _ _ _
       | ok c σ2 => rw [hm, hs] at ih; simp [Sim] at ih
       | throw v2 σ2 =>
         rw [hm, hs] at ih
@@ -263,7 +352,7 @@ theorem pbody_step (n : Nat) (hS : PS S n) (hB : PBodyList S (n+1)) : PBody S (n
         simp [BodyRel, labok_of_nil h3]
     | ok o L' σ' =>
       cases hs : specS S m [] b σ with
-      | fuel => exact bodyrel_fuel_r _ _ _
+      | fuel => exact bodyrel_fuel_r _ _ _ _
       | throw v2 σ2 => rw [hm, hs] at ih; simp [Sim] at ih
       | ok c σ2 =>
         rw [hm, hs] at ih
@@ -275,13 +364,16 @@ theorem pbody_step (n : Nat) (hS : PS S n) (hB : PBodyList S (n+1)) : PBody S (n
         cases hr : isResult o with
         | true =>
           simp only [hr, if_true]
-          exact bodyResult_rel _ hr hk
+          have := bodyResult_rel (labels := labels) (V := ovVal result) σ' hr hk hres (pass := .empty) rfl (by simp [ovVal, pick])
+          simpa [ovVal, pick_none_r] using this
         | false =>
           have hn := kindrel_nil_normal hr hk
           simp only [hr, Bool.false_eq_true, if_false]
           cases n with
           | zero => simp [ottoBody, BodyRel]
-          | succ n => simp [ottoBody, BodyRel, hn]
+          | succ n =>
+            simp only [ottoBody, BodyRel, true_and]
+            exact ⟨hn, by rw [ovVal_nextResult hr, hk.2]⟩
 
 def BRNonResult : BR St → Prop
   | .next r _ _ => isResult r = false
@@ -290,13 +382,13 @@ def BRNonResult : BR St → Prop
   | _ => True
 
 /-- the `result` carried by a body pass is never a valueResult -/
-theorem ottoBody_nonresult : ∀ (n : Nat) (ss : Stmts) (labels L : List String) (σ : St) (result : OV),
-    isResult result = false → BRNonResult (ottoBody S n ss labels L σ result) := by
+theorem ottoBody_nonresult : ∀ (n : Nat) (ss : Stmts) (labels L : List String) (σ : St) (result pass : OV),
+    isResult result = false → BRNonResult (ottoBody S n ss labels L σ result pass) := by
   intro n
   induction n with
-  | zero => intro ss labels L σ result _; simp [ottoBody, BRNonResult]
+  | zero => intro ss labels L σ result pass _; simp [ottoBody, BRNonResult]
   | succ n ih =>
-    intro ss labels L σ result hres
+    intro ss labels L σ result pass hres
     cases ss with
     | nil => simpa [ottoBody, BRNonResult] using hres
     | cons s ss =>
@@ -312,27 +404,24 @@ theorem ottoBody_nonresult : ∀ (n : Nat) (ss : Stmts) (labels L : List String)
           | empty => simp [isResult] at hr
           | val v => simp [isResult] at hr
           | ret v => simp [bodyResult, evalBC, BRNonResult]
-          | brk t => by_cases h : t ∈ labels <;> simp [bodyResult, evalBC, h, hres, BRNonResult]
-          | cont t => by_cases h : t ∈ labels <;> simp [bodyResult, evalBC, h, hres, BRNonResult]
+          | brk t x => by_cases h : t ∈ labels <;> simp [bodyResult, evalBC, h, BRNonResult, carried_nonresult hres]
+          | cont t x => by_cases h : t ∈ labels <;> simp [bodyResult, evalBC, h, BRNonResult, carried_nonresult hres]
         | false =>
           simp only [hr, Bool.false_eq_true, if_false]
-          exact ih ss labels L' σ' _ (nextResult_notResult hr hres)
+          exact ih ss labels L' σ' _ _ (nextResult_notResult hr hres)
 
 theorem kindrel_nonresult_normal {L iter : List String} {r : OV} {c : Comp} (hr : isResult r = false)
-    (hc : c.t = .normal) : KindRel L iter r c := by
-  cases r <;> simp [isResult] at hr <;> simp [KindRel, hc]
-
-theorem kindrel_nonresult_brk {L iter : List String} {r : OV} {c : Comp} {t : String} (hr : isResult r = false)
-    (hc : c.t = .brk t) (ht : t ∈ L) : KindRel L iter r c := by
-  cases r <;> simp [isResult] at hr <;> simp [KindRel, hc, ht]
+    (hc : c.t = .normal) (hv : ovVal r = c.v) : KindRel L iter r c := by
+  refine ⟨?_, hv⟩
+  cases r <;> simp [isResult] at hr <;> simp [KindRelT, hc]
 
 /-- the common step of the three iteration statements -/
-theorem loop_step_sim {L ls iter : List String} (H1 : ∀ t ∈ ls, t ∈ L) (H2 : ∀ t ∈ L, t ∉ iter)
+theorem loop_step_sim {L ls iter : List String} (H1 : ∀ t ∈ ls, t ∈ L) (H1' : ∀ t ∈ L, t ∈ ls) (H2 : ∀ t ∈ L, t ∉ iter)
     {br : BR St} {sr : SR St} (V : Option Val)
     {again : OV → List String → St → MR St} {sagain : Option Val → St → SR St}
-    (hrel : BodyRel (L ++ [""]) (ls ++ iter) br sr)
+    (hrel : BodyRel (L ++ [""]) (ls ++ iter) V br sr)
     (hnr : BRNonResult br)
-    (hagain : ∀ r σ2 V', isResult r = false → Sim L iter (again r [] σ2) (sagain V' σ2)) :
+    (hagain : ∀ r σ2 V', isResult r = false → ovVal r = V' → Sim L iter (again r [] σ2) (sagain V' σ2)) :
     Sim L iter (loopStep again br) (sLoopStep ("" :: ls) V sagain sr) := by
   cases br with
   | fuel => simp [loopStep, Sim]
@@ -352,17 +441,17 @@ theorem loop_step_sim {L ls iter : List String} (H1 : ∀ t ∈ ls, t ∈ L) (H2
     | throw v2 σ3 => simp [BodyRel] at hrel
     | ok c σ3 =>
       simp only [BodyRel] at hrel
-      obtain ⟨h1, h2, h3⟩ := hrel
+      obtain ⟨h1, h2, h3, h4⟩ := hrel
       subst h1; subst h2
       simp only [loopStep, sLoopStep, h3]
-      exact hagain r σ2 _ hnr
+      exact hagain r σ2 _ hnr h4
   | cont r L' σ2 =>
     cases sr with
     | fuel => exact sim_fuel_r _ _ _
     | throw v2 σ3 => simp [BodyRel] at hrel
     | ok c σ3 =>
       simp only [BodyRel] at hrel
-      obtain ⟨h1, h2, t, h3, h4, h5⟩ := hrel
+      obtain ⟨h1, h2, ⟨t, h3, h4, h5⟩, hv⟩ := hrel
       subst h1; subst h2
       have hin : ("" :: ls).contains t = true := by
         simp only [List.contains_iff_mem, List.mem_cons]
@@ -374,26 +463,23 @@ theorem loop_step_sim {L ls iter : List String} (H1 : ∀ t ∈ ls, t ∈ L) (H2
             · exact absurd h6 (H2 t h7)
             · simp at h7; exact Or.inl h7
       simp only [loopStep, sLoopStep, h3, hin, if_true]
-      exact hagain r σ2 _ hnr
+      exact hagain r σ2 _ hnr hv
   | brk r L' σ2 =>
     cases sr with
     | fuel => exact sim_fuel_r _ _ _
     | throw v2 σ3 => simp [BodyRel] at hrel
     | ok c σ3 =>
       simp only [BodyRel] at hrel
-      obtain ⟨h1, h2, t, h3, h4⟩ := hrel
+      obtain ⟨h1, h2, ⟨t, h3, h4⟩, hv⟩ := hrel
       subst h1; subst h2
       simp only [loopStep, sLoopStep, h3]
-      by_cases hin : ("" :: ls).contains t = true
-      · simp only [hin, if_true]
-        exact sim_ok _ (labok_nil _) (kindrel_nonresult_normal hnr rfl)
-      · simp only [hin, if_false]
-        have htL : t ∈ L := by
-          simp only [List.contains_iff_mem, List.mem_cons, not_or] at hin
-          rcases List.mem_append.mp h4 with h7 | h7
-          · exact h7
-          · simp at h7; exact absurd h7 hin.1
-        exact sim_ok _ (labok_nil _) (kindrel_nonresult_brk hnr h3 htL)
+      have hin : ("" :: ls).contains t = true := by
+        simp only [List.contains_iff_mem, List.mem_cons]
+        rcases List.mem_append.mp h4 with h7 | h7
+        · exact Or.inr (H1' t h7)
+        · simp at h7; exact Or.inl h7
+      simp only [hin, if_true]
+      exact sim_ok _ (labok_nil _) (kindrel_nonresult_normal hnr rfl hv)
   | retv o L' σ2 =>
     cases sr with
     | fuel => exact sim_fuel_r _ _ _
@@ -403,17 +489,18 @@ theorem loop_step_sim {L ls iter : List String} (H1 : ∀ t ∈ ls, t ∈ L) (H2
       obtain ⟨h1, h2, hk, hres, hb, hc⟩ := hrel
       subst h1; subst h2
       simp only [loopStep]
+      have hk1 := hk.1
       cases o with
       | empty => simp [isResult] at hres
       | val v => simp [isResult] at hres
       | ret v =>
-        simp only [KindRel] at hk
-        simp only [sLoopStep, hk.1]
-        exact sim_ok _ (labok_nil _) (by simp [KindRel, hk])
-      | brk t =>
-        simp only [KindRel] at hk
+        simp only [KindRelT] at hk1
+        simp only [sLoopStep, hk1]
+        exact sim_ok _ (labok_nil _) ⟨by simp [KindRelT, hk1], hk.2⟩
+      | brk t x =>
+        simp only [KindRelT] at hk1
         have hnin : ("" :: ls).contains t = false := by
-          have := hb t rfl
+          have := hb t x rfl
           simp only [List.mem_append, not_or] at this
           apply Bool.eq_false_iff.mpr
           intro hcon
@@ -421,11 +508,11 @@ theorem loop_step_sim {L ls iter : List String} (H1 : ∀ t ∈ ls, t ∈ L) (H2
           rcases hcon with h | h
           · exact this.2 (by simp [h])
           · exact this.1 (H1 t h)
-        simp only [sLoopStep, hk, hnin, Bool.false_eq_true, if_false]
-        exact sim_ok _ (labok_nil _) (by simp [KindRel, hk])
-      | cont t =>
-        simp only [KindRel] at hk
-        have hnl := hc t rfl
+        simp only [sLoopStep, hk1, hnin, Bool.false_eq_true, if_false]
+        exact sim_ok _ (labok_nil _) ⟨by simp [KindRelT, hk1], hk.2⟩
+      | cont t x =>
+        simp only [KindRelT] at hk1
+        have hnl := hc t x rfl
         simp only [List.mem_append, not_or] at hnl
         have hnin : ("" :: ls).contains t = false := by
           apply Bool.eq_false_iff.mpr
@@ -434,10 +521,10 @@ theorem loop_step_sim {L ls iter : List String} (H1 : ∀ t ∈ ls, t ∈ L) (H2
           rcases hcon with h | h
           · exact hnl.2 (by simp [h])
           · exact hnl.1 (H1 t h)
-        simp only [sLoopStep, hk.1, hnin, Bool.false_eq_true, if_false]
-        refine sim_ok _ (labok_nil _) ?_
-        simp only [KindRel, hk.1, true_and]
-        rcases hk.2 with h | h
+        simp only [sLoopStep, hk1.1, hnin, Bool.false_eq_true, if_false]
+        refine sim_ok _ (labok_nil _) ⟨?_, hk.2⟩
+        simp only [KindRelT, hk1.1, true_and]
+        rcases hk1.2 with h | h
         · exact Or.inl h
         · rcases List.mem_append.mp h with h6 | h6
           · exact absurd (H1 t h6) hnl.1
@@ -445,19 +532,23 @@ theorem loop_step_sim {L ls iter : List String} (H1 : ∀ t ∈ ls, t ∈ L) (H2
 
 
 def PWhile (n : Nat) : Prop := ∀ m c b L ls iter σ result V,
-    (∀ t ∈ ls, t ∈ L) → (∀ t ∈ L, t ∉ iter) → wlS (ls ++ iter) [] b = true → isResult result = false →
+    (∀ t ∈ ls, t ∈ L) → (∀ t ∈ L, t ∈ ls) → (∀ t ∈ L, t ∉ iter) → wlS (ls ++ iter) [] b = true → isResult result = false →
+    ovVal result = V →
     Sim L iter (ottoWhile S n c (bodyList b) (L ++ [""]) [] σ result) (specWhile S m ("" :: ls) c b σ V)
 
 def PDoWhile (n : Nat) : Prop := ∀ m c b L ls iter σ result V,
-    (∀ t ∈ ls, t ∈ L) → (∀ t ∈ L, t ∉ iter) → wlS (ls ++ iter) [] b = true → isResult result = false →
+    (∀ t ∈ ls, t ∈ L) → (∀ t ∈ L, t ∈ ls) → (∀ t ∈ L, t ∉ iter) → wlS (ls ++ iter) [] b = true → isResult result = false →
+    ovVal result = V →
     Sim L iter (ottoDoWhile S n (bodyList b) c (L ++ [""]) [] σ result) (specDoWhile S m ("" :: ls) b c σ V)
 
 def PFor (n : Nat) : Prop := ∀ m test update b L ls iter σ result V,
-    (∀ t ∈ ls, t ∈ L) → (∀ t ∈ L, t ∉ iter) → wlS (ls ++ iter) [] b = true → isResult result = false →
+    (∀ t ∈ ls, t ∈ L) → (∀ t ∈ L, t ∈ ls) → (∀ t ∈ L, t ∉ iter) → wlS (ls ++ iter) [] b = true → isResult result = false →
+    ovVal result = V →
     Sim L iter (ottoFor S n test update (bodyList b) (L ++ [""]) [] σ result) (specFor S m ("" :: ls) test update b σ V)
 
 theorem pwhile_step (n : Nat) (hB : PBody S n) (hW : PWhile S n) : PWhile S (n+1) := by
-  intro m c b L ls iter σ result V H1 H2 hwl hres
+  intro m c b L ls iter σ result V H1 H1' H2 hwl hres hV
+  subst hV
   cases m with
   | zero => simp only [specWhile]; exact sim_fuel_r _ _ _
   | succ m =>
@@ -468,35 +559,37 @@ theorem pwhile_step (n : Nat) (hB : PBody S n) (hW : PWhile S n) : PWhile S (n+1
       cases ht : S.truthy v with
       | false =>
         simp only [ht, Bool.not_false, if_true]
-        exact sim_ok _ (labok_nil _) (kindrel_nonresult_normal (c := ⟨.normal, V⟩) hres rfl)
+        exact sim_ok _ (labok_nil _) (kindrel_nonresult_normal (c := ⟨.normal, ovVal result⟩) hres rfl rfl)
       | true =>
         simp only [ht, Bool.not_true, Bool.false_eq_true, if_false]
-        exact loop_step_sim H1 H2 V (hB m b (L ++ [""]) (ls ++ iter) σ' result hwl)
-          (ottoBody_nonresult S n _ _ _ _ _ hres)
-          (fun r σ2 V' hr => hW m c b L ls iter σ2 r V' H1 H2 hwl hr)
+        exact loop_step_sim H1 H1' H2 _ (hB m b (L ++ [""]) (ls ++ iter) σ' result hwl hres)
+          (ottoBody_nonresult S n _ _ _ _ _ _ hres)
+          (fun r σ2 V' hr hv => hW m c b L ls iter σ2 r V' H1 H1' H2 hwl hr hv)
 
 theorem pdowhile_step (n : Nat) (hB : PBody S n) (hW : PDoWhile S n) : PDoWhile S (n+1) := by
-  intro m c b L ls iter σ result V H1 H2 hwl hres
+  intro m c b L ls iter σ result V H1 H1' H2 hwl hres hV
+  subst hV
   cases m with
   | zero => simp only [specDoWhile]; exact sim_fuel_r _ _ _
   | succ m =>
     simp only [ottoDoWhile, specDoWhile]
-    refine loop_step_sim H1 H2 V (hB m b (L ++ [""]) (ls ++ iter) σ result hwl)
-      (ottoBody_nonresult S n _ _ _ _ _ hres) ?_
-    intro r σ2 V' hr
+    refine loop_step_sim H1 H1' H2 _ (hB m b (L ++ [""]) (ls ++ iter) σ result hwl hres)
+      (ottoBody_nonresult S n _ _ _ _ _ _ hres) ?_
+    intro r σ2 V' hr hv
     cases S.evalE c σ2 with
     | throw v σ3 => exact sim_throw _ _ (labok_nil _)
     | ok v σ3 =>
       cases ht : S.truthy v with
       | false =>
         simp only [ht, Bool.not_false, if_true]
-        exact sim_ok _ (labok_nil _) (kindrel_nonresult_normal (c := ⟨.normal, V'⟩) hr rfl)
+        exact sim_ok _ (labok_nil _) (kindrel_nonresult_normal (c := ⟨.normal, V'⟩) hr rfl hv)
       | true =>
         simp only [ht, Bool.not_true, Bool.false_eq_true, if_false]
-        exact hW m c b L ls iter σ3 r V' H1 H2 hwl hr
+        exact hW m c b L ls iter σ3 r V' H1 H1' H2 hwl hr hv
 
 theorem pfor_step (n : Nat) (hB : PBody S n) (hW : PFor S n) : PFor S (n+1) := by
-  intro m test update b L ls iter σ result V H1 H2 hwl hres
+  intro m test update b L ls iter σ result V H1 H1' H2 hwl hres hV
+  subst hV
   cases m with
   | zero => simp only [specFor]; exact sim_fuel_r _ _ _
   | succ m =>
@@ -504,16 +597,16 @@ theorem pfor_step (n : Nat) (hB : PBody S n) (hW : PFor S n) : PFor S (n+1) := b
     cases test with
     | none =>
       simp only
-      refine loop_step_sim H1 H2 V (hB m b (L ++ [""]) (ls ++ iter) σ result hwl)
-        (ottoBody_nonresult S n _ _ _ _ _ hres) ?_
-      intro r σ2 V' hr
+      refine loop_step_sim H1 H1' H2 _ (hB m b (L ++ [""]) (ls ++ iter) σ result hwl hres)
+        (ottoBody_nonresult S n _ _ _ _ _ _ hres) ?_
+      intro r σ2 V' hr hv
       cases update with
-      | none => exact hW m none none b L ls iter σ2 r V' H1 H2 hwl hr
+      | none => exact hW m none none b L ls iter σ2 r V' H1 H1' H2 hwl hr hv
       | some u =>
         simp only
         cases S.evalE u σ2 with
         | throw v σ3 => exact sim_throw _ _ (labok_nil _)
-        | ok v σ3 => exact hW m none (some u) b L ls iter σ3 r V' H1 H2 hwl hr
+        | ok v σ3 => exact hW m none (some u) b L ls iter σ3 r V' H1 H1' H2 hwl hr hv
     | some t =>
       simp only
       cases S.evalE t σ with
@@ -522,19 +615,19 @@ theorem pfor_step (n : Nat) (hB : PBody S n) (hW : PFor S n) : PFor S (n+1) := b
         cases ht : S.truthy v with
         | false =>
           simp only [ht, Bool.not_false, if_true]
-          exact sim_ok _ (labok_nil _) (kindrel_nonresult_normal (c := ⟨.normal, V⟩) hres rfl)
+          exact sim_ok _ (labok_nil _) (kindrel_nonresult_normal (c := ⟨.normal, ovVal result⟩) hres rfl rfl)
         | true =>
           simp only [ht, Bool.not_true, Bool.false_eq_true, if_false]
-          refine loop_step_sim H1 H2 V (hB m b (L ++ [""]) (ls ++ iter) σ' result hwl)
-            (ottoBody_nonresult S n _ _ _ _ _ hres) ?_
-          intro r σ2 V' hr
+          refine loop_step_sim H1 H1' H2 _ (hB m b (L ++ [""]) (ls ++ iter) σ' result hwl hres)
+            (ottoBody_nonresult S n _ _ _ _ _ _ hres) ?_
+          intro r σ2 V' hr hv
           cases update with
-          | none => exact hW m (some t) none b L ls iter σ2 r V' H1 H2 hwl hr
+          | none => exact hW m (some t) none b L ls iter σ2 r V' H1 H1' H2 hwl hr hv
           | some u =>
             simp only
             cases S.evalE u σ2 with
             | throw v σ3 => exact sim_throw _ _ (labok_nil _)
-            | ok v σ3 => exact hW m (some t) (some u) b L ls iter σ3 r V' H1 H2 hwl hr
+            | ok v σ3 => exact hW m (some t) (some u) b L ls iter σ3 r V' H1 H1' H2 hwl hr hv
 
 end
 
